@@ -1046,6 +1046,31 @@ var reservedNames = []string{"change", "create", "delete", "add", "remove", "pat
 var badNames = []string{"", "a.b", "a*", ">", "a?b", "a b", "é", "\x7f", "a\tb", ".", "x."}
 var goodNames = []string{"custom", "created", "foo-bar", "x_1", "$x", "{}", "Change", "reset", "~"}
 
+// a NON-empty revert map whose content is related to the new values: only an empty (non-nil)
+// revert map means "nothing changed", never its content
+func (g *gen) revFrom(vals []kvD, variant int) []kvD {
+	rev := append([]kvD{}, vals...)
+	switch variant {
+	case 0: // every old value equals the new value
+	case 1: // DeleteAction as old value everywhere
+		for i := range rev {
+			rev[i].V = valD{K: "del"}
+		}
+	case 2: // mixed: first key unchanged, the others really changed
+		for i := 1; i < len(rev); i++ {
+			rev[i].V = g.val(true)
+		}
+	case 3: // a key that is not in the change at all, plus the unchanged ones
+		rev = append(rev, kvD{K: "zzextra", V: g.val(true)})
+	case 4: // only a key that is not in the change
+		rev = []kvD{{K: "zzextra", V: valD{K: "del"}}}
+	case 5: // a strict subset of the changed keys, unchanged
+		rev = rev[:1]
+	}
+	sort.Slice(rev, func(i, j int) bool { return rev[i].K < rev[j].K })
+	return rev
+}
+
 func applyChoices(op string) []string {
 	switch op {
 	case "change":
@@ -1071,6 +1096,10 @@ func (g *gen) withApply(a actD, sd setupD, ap string) actD {
 	case "change":
 		if ap == "ok" {
 			a.Rev = g.kvs(1, 3, true)
+			// handlers that report every touched key: revert values derived from the new values
+			if len(a.Vals) > 0 && g.r.Chance(30) {
+				a.Rev = g.revFrom(a.Vals, g.r.Intn(6))
+			}
 		}
 	case "remove", "delete":
 		if ap == "ok" {
@@ -1609,6 +1638,29 @@ func main() {
 					acts = append(acts, actD{Op: "reply"})
 				}
 				add("timeouts", single(sd, "call", acts...))
+			}
+		}
+		// (j) ApplyChange handlers reporting every touched key: the revert map is NON-empty but its
+		// values equal the new values (DeleteAction on both sides, equal primitives, mixed, extra keys)
+		for vi, vals := range [][]kvD{
+			{{"a", valD{K: "del"}}},
+			{{"a", valD{K: "del"}}, {"b", valD{K: "del"}}},
+			{{"a", valD{K: "int", N: 5}}},
+			{{"a", valD{K: "str", S: "same"}}, {"b", valD{K: "nil"}}},
+			{{"a", valD{K: "del"}}, {"b", valD{K: "int", N: 7}}},
+			{{"a", valD{K: "ref", S: "t.ref.1"}}, {"b", valD{K: "del"}}, {"foo", valD{K: "bool", N: 1}}},
+		} {
+			for variant := 0; variant < 6; variant++ {
+				for _, ctx := range []string{"call", "with"} {
+					mode := []string{"direct", "pattern", "mount", "root"}[(vi+variant)%4]
+					sd := setupD{Mode: mode, Type: []string{"model", "unset"}[variant%2], Apply: allApply(true), Steps: g.steps(mode, 1+variant%3)}
+					a := actD{Op: "change", Vals: vals, Ap: "ok", Rev: g.revFrom(vals, variant)}
+					acts := []actD{a, g.baseAction("reaccess")}
+					if ctx == "call" {
+						acts = append(acts, actD{Op: "reply"})
+					}
+					add("revert-content", single(sd, ctx, acts...))
+				}
 			}
 		}
 		// (d) random groups
